@@ -672,6 +672,11 @@ func (e *AnimEncoder) addOptimizedFrame(img image.Image, duration time.Duration)
 
 	isFirstFrame := e.frameCount == 0
 	durMS := int(duration / time.Millisecond)
+	if durMS > maxDuration {
+		// One stored frame carries at most 24 bits of milliseconds; libwebp
+		// refuses such a frame as well instead of shortening its display time.
+		return fmt.Errorf("animation: frame duration %d ms exceeds the maximum of %d ms", durMS, maxDuration)
+	}
 
 	if isFirstFrame {
 		// First frame is always a full-canvas keyframe.
